@@ -106,8 +106,14 @@ impl IndexRead {
         if entries.is_empty() {
             // It's legal, it's just weird - and it can be produced by some old Conserve versions.
         }
-        // A damaged hunk can still decode but hold a time that cannot be represented: report it
-        // as corrupt here, rather than panicking when the time is used.
+        // A damaged hunk can still decode but hold a path that is not a valid apath, or a time
+        // that cannot be represented: report it as corrupt here, rather than panicking when the
+        // path or the time is used.
+        if let Some(bad) = entries.iter().find(|entry| !Apath::is_valid(&entry.apath)) {
+            return Err(Error::InvalidMetadata {
+                details: format!("Index hunk {path} has an invalid apath {:?}", bad.apath),
+            });
+        }
         if let Some(bad) = entries.iter().find(|entry| !entry.has_valid_mtime()) {
             return Err(Error::InvalidMetadata {
                 details: format!(
